@@ -121,7 +121,8 @@ func runC05(c *Ctx) {
 	p := c.Progs["mod"]
 	c.Rule("C05.B", "no accumulate-then-forward call on the response path", 30)
 	c.Rule("C05.W", "write-through writers, single-read readers", 9)
-	c.Rule("C05.P", "the body travels through two synchronous pipes", 5)
+	c.Rule("C05.P", "the body travels through two synchronous pipes", 6)
+	rulePipeClosers(c, p, "C05.P")
 	c.Rule("C05.C", "forced chunked framing (= C03.C)", 1)
 	c.Rule("C05.F", "reverse proxy flush interval", 1)
 	c.Rule("C05.M", "the HTML shim splice does one bounded read", 2)
@@ -190,38 +191,7 @@ func runC05(c *Ctx) {
 	}
 
 	// ---- C05.W
-	for _, t := range ResponseWriterImpls(p) {
-		tn := NamedTypeRel(t)
-		wr := p.MethodOf(t, "Write")
-		if wr == nil || len(wr.Blocks) == 0 {
-			continue
-		}
-		var fw []ssa.Instruction
-		EachInstr(wr, func(i ssa.Instruction) {
-			if IsCall(i, "(net/http.ResponseWriter).Write", "(*io.PipeWriter).Write", "(io.Writer).Write") {
-				fw = append(fw, i)
-			}
-		})
-		bad := ""
-		if len(fw) != 1 {
-			bad = fmt.Sprintf("%d underlying Write calls (expected one)", len(fw))
-		} else {
-			if InLoop(fw[0].Block()) {
-				bad = "the underlying Write is inside a loop"
-			}
-			if PathOf(Args(CallOf(fw[0]))[1]) != P(wr, 1) {
-				bad = "the underlying Write does not receive the method's own slice"
-			}
-		}
-		if len(ChanOpsOf(wr)) > 0 {
-			bad = "Write hands data over a channel"
-		}
-		for _, cl := range Closures(wr) {
-			_ = cl
-			bad = "Write defers work to a closure/goroutine"
-		}
-		c.Check("C05.W", tn+".Write:write-through", p, wr.Pos(), bad == "", "one synchronous underlying Write of the same slice", tn+".Write is not write-through: "+bad)
-	}
+	ruleWriteThrough(c, p, "C05.W")
 	for _, rn := range []string{"agent/utils.(*bufferedReadSeeker).Read", "agent/utils.(attemptReader).Read", "agent/utils.(*streamedBody).Read", "agent/websockets.(*shimmedBody).Read"} {
 		fn := p.Func(rn)
 		if fn == nil {
@@ -415,4 +385,43 @@ func lastReturn(fn *ssa.Function) ssa.Instruction {
 	}
 	// the return that hands back the handler chain: any return dominated is fine; use the last in block order
 	return rs[len(rs)-1]
+}
+
+// ruleWriteThrough: every ResponseWriter implementation of the module hands the slice it is
+// given to one synchronous underlying Write — whole, once, not in a loop, not through a channel
+// or goroutine. A writer that withholds or cuts bytes (a Content-Length guard, a size cap)
+// truncates the body the backend produced.
+func ruleWriteThrough(c *Ctx, p *Prog, rule string) {
+	for _, t := range ResponseWriterImpls(p) {
+		tn := NamedTypeRel(t)
+		wr := p.MethodOf(t, "Write")
+		if wr == nil || len(wr.Blocks) == 0 {
+			continue
+		}
+		var fw []ssa.Instruction
+		EachInstr(wr, func(i ssa.Instruction) {
+			if IsCall(i, "(net/http.ResponseWriter).Write", "(*io.PipeWriter).Write", "(io.Writer).Write") {
+				fw = append(fw, i)
+			}
+		})
+		bad := ""
+		if len(fw) != 1 {
+			bad = fmt.Sprintf("%d underlying Write calls (expected one)", len(fw))
+		} else {
+			if InLoop(fw[0].Block()) {
+				bad = "the underlying Write is inside a loop"
+			}
+			if PathOf(Args(CallOf(fw[0]))[1]) != P(wr, 1) {
+				bad = "the underlying Write does not receive the method's own slice"
+			}
+		}
+		if len(ChanOpsOf(wr)) > 0 {
+			bad = "Write hands data over a channel"
+		}
+		for _, cl := range Closures(wr) {
+			_ = cl
+			bad = "Write defers work to a closure/goroutine"
+		}
+		c.Check(rule, tn+".Write:write-through", p, wr.Pos(), bad == "", "one synchronous underlying Write of the same slice", tn+".Write is not write-through: "+bad)
+	}
 }
